@@ -25,12 +25,12 @@ SPEC = dict(
     ),
     bound=dict(
         quick="trunks with 1 op (scenarios S1, S2; 1..2 features in both orders) x all head assignments for 1..2 tasks, "
-              "the 8 consecutive template triples for 3 tasks; 8 head templates",
+              "the 8 consecutive template triples for 3 tasks; 9 head templates",
         thorough="trunks with <= 2 ops (S1, S2; features in ascending order) x consecutive-template assignments for 1..3 tasks, "
                  "plus the whole quick space",
     ),
     assumptions=[
-        "head menu of 8 templates (own / several / zero / pooled parameters, one or two features, a leaf read around the features)",
+        "head menu of 9 templates (own / several / zero / pooled parameters, one or two features, a leaf read around the features)",
         "trunk ops limited to the grammar of mc/programs.py",
         "features are not computed from one another (nested features are excluded structurally)",
     ],
